@@ -237,10 +237,46 @@ pub fn history(seed: u64, idx: u64) -> Case {
                     let key: Key = (q.clone(), oids.clone());
                     let st = server.conn(k);
                     let before = st.lock().unwrap().log.len();
-                    let r = if types.is_empty() && rng.chance(1, 2) {
-                        tokio::time::timeout(Duration::from_secs(10), held[i].0.prepare_cached(&q)).await
-                    } else {
-                        tokio::time::timeout(Duration::from_secs(10), held[i].0.prepare_typed_cached(&q, &types)).await
+                    let mut tx_seen: Option<usize> = None;
+                    // the same cache is reached in four ways: inherent methods or the GenericClient trait,
+                    // on the client itself or inside a transaction
+                    let via = rng.below(4);
+                    *counters.entry(format!("prepare_via:{}", ["client", "client_trait", "transaction", "transaction_trait"][via as usize])).or_insert(0) += 1;
+                    let mut before = before;
+                    let r = match via {
+                        0 => {
+                            if types.is_empty() && rng.chance(1, 2) {
+                                tokio::time::timeout(Duration::from_secs(10), held[i].0.prepare_cached(&q)).await
+                            } else {
+                                tokio::time::timeout(Duration::from_secs(10), held[i].0.prepare_typed_cached(&q, &types)).await
+                            }
+                        }
+                        1 => {
+                            use deadpool_postgres::GenericClient;
+                            let cw: &deadpool_postgres::Client = &held[i].0;
+                            tokio::time::timeout(Duration::from_secs(10), GenericClient::prepare_typed_cached(cw, &q, &types)).await
+                        }
+                        _ => {
+                            let tx = match tokio::time::timeout(Duration::from_secs(10), held[i].0.transaction()).await {
+                                Ok(Ok(tx)) => tx,
+                                other => {
+                                    v!("harness", "could not start a transaction on conn {}: {:?}", k, other.map(|r| r.map(|_| ()).map_err(|e| e.to_string())));
+                                    continue;
+                                }
+                            };
+                            before = st.lock().unwrap().log.len();
+                            let r = if via == 2 {
+                                tokio::time::timeout(Duration::from_secs(10), tx.prepare_typed_cached(&q, &types)).await
+                            } else {
+                                use deadpool_postgres::GenericClient;
+                                tokio::time::timeout(Duration::from_secs(10), GenericClient::prepare_typed_cached(&tx, &q, &types)).await
+                            };
+                            // remember what the server saw for the prepare alone, then finish the transaction
+                            let seen = st.lock().unwrap().log.len();
+                            let _ = tokio::time::timeout(Duration::from_secs(10), tx.commit()).await;
+                            tx_seen = Some(seen);
+                            r
+                        }
                     };
                     let stmt = match r {
                         Ok(Ok(s)) => {
@@ -267,7 +303,11 @@ pub fn history(seed: u64, idx: u64) -> Case {
                             continue;
                         }
                     };
-                    let after: Vec<Front> = st.lock().unwrap().log[before..].iter().map(|x| x.1.clone()).collect();
+                    let after: Vec<Front> = {
+                        let g = st.lock().unwrap();
+                        let end = tx_seen.unwrap_or(g.log.len());
+                        g.log[before..end].iter().map(|x| x.1.clone()).collect()
+                    };
                     let hit = keys.get(&k).map(|s| s.contains(&key)).unwrap_or(false);
                     if hit {
                         *counters.entry("cache_hits".into()).or_insert(0) += 1;
